@@ -72,6 +72,7 @@ SPEC = {
     "isidentifier": lambda a: a.isidentifier(),
     "isspace": lambda a: a.isspace(),
     "n_count": len,
+    "replace": lambda a, b, c: a.replace(b, c),
 }
 
 
